@@ -230,6 +230,58 @@ impl ReactionTriggerBundle for DynBundle {
     }
 }
 
+/// One dynamically chosen trigger that implements the crate's `ReactionTrigger`. Tuples of `OneTrig` therefore go
+/// through the crate's own blanket impl for single triggers and its tuple impls of `ReactionTriggerBundle`
+/// (`len`, `collect_reactor_types`, `register_triggers`), which a `DynBundle` bypasses.
+#[derive(Clone, Copy)]
+pub struct OneTrig(pub Trig, pub Entity);
+
+impl ReactionTrigger for OneTrig {
+    fn reactor_type(&self) -> ReactorType {
+        with_trig(self.0, self.1, |r| r.rtype())
+    }
+    fn register(&self, c: &mut Commands, h: &ReactorHandle) {
+        with_trig(self.0, self.1, |r| r.reg(c, h))
+    }
+}
+
+/// A computation that is generic over the concrete bundle type.
+pub trait BundleFn {
+    type Out;
+    fn call<B: ReactionTriggerBundle>(self, b: B) -> Self::Out;
+}
+
+/// Number of bundle shapes `with_bundle` distinguishes (shape 0 = `DynBundle`).
+pub const N_SHAPES: u8 = 4;
+
+/// Builds the bundle for `items` in the requested shape (0: `DynBundle`; 1: flat tuple of single triggers; 2, 3: nested
+/// tuples / 1-tuples) and hands it to `f`.
+pub fn with_bundle<F: BundleFn>(items: &[(Trig, Entity)], shape: u8, f: F) -> F::Out {
+    let n = items.len().min(MAX_BUNDLE);
+    let t = |i: usize| OneTrig(items[i].0, items[i].1);
+    match (shape % N_SHAPES, n) {
+        (0, _) => f.call(DynBundle::new(items)),
+        (_, 0) => f.call(()),
+        (1, 1) => f.call(t(0)),
+        (_, 1) => f.call((t(0),)),
+        (1, 2) => f.call((t(0), t(1))),
+        (2, 2) => f.call(((t(0),), t(1))),
+        (_, 2) => f.call((t(0), ((), t(1)))),
+        (1, 3) => f.call((t(0), t(1), t(2))),
+        (2, 3) => f.call(((t(0), t(1)), t(2))),
+        (_, 3) => f.call((t(0), (t(1), t(2)))),
+        (1, 4) => f.call((t(0), t(1), t(2), t(3))),
+        (2, 4) => f.call(((t(0), t(1)), (t(2), t(3)))),
+        (_, 4) => f.call((t(0), (t(1), (t(2),)), t(3))),
+        (1, 5) => f.call((t(0), t(1), t(2), t(3), t(4))),
+        (2, 5) => f.call((t(0), (t(1), t(2), t(3)), t(4))),
+        (_, 5) => f.call(((t(0), t(1)), (), (t(2), t(3), t(4)))),
+        (1, _) => f.call((t(0), t(1), t(2), t(3), t(4), t(5))),
+        (2, _) => f.call(((t(0), t(1), t(2)), (t(3), t(4), t(5)))),
+        (_, _) => f.call((t(0), (t(1), (t(2), (t(3), (t(4), t(5))))))),
+    }
+}
+
 //-------------------------------------------------------------------------------------------------------------------
 // Readers and observation vector
 
@@ -280,6 +332,10 @@ pub struct Obs {
     pub desp: Option<u64>,
     /// `EntityLocal` of entity world reactors (entity, data before this run's increment).
     pub ew_local: Option<(u64, u32)>,
+    /// Bit i set: the alternative forms of reader i (`is_empty`, `read`, `entity`, `get_entity`) disagreed with the
+    /// `try_read` / `get` form. Reader order: bc0 bc1 ee0 ee1 ins0 ins1 mut0 mut1 rem0 rem1 desp.
+    #[serde(default)]
+    pub forms_disagree: u32,
 }
 
 /// One thing seen by a run.
@@ -350,6 +406,28 @@ pub fn sample(r: &mut Readers) -> (Obs, Vec<Box<dyn std::any::Any + Send>>) {
         e0.try_read().ok().map(|(e, p)| (ebits(e), p.id)),
         e1.try_read().ok().map(|(e, p)| (ebits(e), p.id)),
     ];
+    // the convenience forms of every reader must agree with the fallible form (the panicking forms are only called
+    // when the fallible form returned a value)
+    let mut dis = 0u32;
+    let mut chk = |bit: u32, ok: bool| {
+        if !ok {
+            dis |= 1 << bit;
+        }
+    };
+    chk(0, b0.is_empty() == obs.bc[0].is_none() && obs.bc[0].map(|id| b0.read().id == id).unwrap_or(true));
+    chk(1, b1.is_empty() == obs.bc[1].is_none() && obs.bc[1].map(|id| b1.read().id == id).unwrap_or(true));
+    chk(
+        2,
+        e0.is_empty() == obs.ee[0].is_none()
+            && e0.get_entity().ok().map(ebits) == obs.ee[0].map(|x| x.0)
+            && obs.ee[0].map(|(e, id)| ebits(e0.entity()) == e && ebits(e0.read().0) == e && e0.read().1.id == id).unwrap_or(true),
+    );
+    chk(
+        3,
+        e1.is_empty() == obs.ee[1].is_none()
+            && e1.get_entity().ok().map(ebits) == obs.ee[1].map(|x| x.0)
+            && obs.ee[1].map(|(e, id)| ebits(e1.entity()) == e && ebits(e1.read().0) == e && e1.read().1.id == id).unwrap_or(true),
+    );
     if let Ok(p) = s0.take() {
         obs.se[0] = Some(p.id);
         held.push(Box::new(p));
@@ -370,5 +448,13 @@ pub fn sample(r: &mut Readers) -> (Obs, Vec<Box<dyn std::any::Any + Send>>) {
     obs.mu = [m0.get().ok().map(ebits), m1.get().ok().map(ebits)];
     obs.rem = [r0.get().ok().map(ebits), r1.get().ok().map(ebits)];
     obs.desp = d.get().ok().map(ebits);
+    chk(4, i0.is_empty() == obs.ins[0].is_none() && obs.ins[0].map(|e| ebits(i0.entity()) == e).unwrap_or(true));
+    chk(5, i1.is_empty() == obs.ins[1].is_none() && obs.ins[1].map(|e| ebits(i1.entity()) == e).unwrap_or(true));
+    chk(6, m0.is_empty() == obs.mu[0].is_none() && obs.mu[0].map(|e| ebits(m0.entity()) == e).unwrap_or(true));
+    chk(7, m1.is_empty() == obs.mu[1].is_none() && obs.mu[1].map(|e| ebits(m1.entity()) == e).unwrap_or(true));
+    chk(8, r0.is_empty() == obs.rem[0].is_none() && obs.rem[0].map(|e| ebits(r0.entity()) == e).unwrap_or(true));
+    chk(9, r1.is_empty() == obs.rem[1].is_none() && obs.rem[1].map(|e| ebits(r1.entity()) == e).unwrap_or(true));
+    chk(10, d.is_empty() == obs.desp.is_none() && obs.desp.map(|e| ebits(d.entity()) == e).unwrap_or(true));
+    obs.forms_disagree = dis;
     (obs, held)
 }
